@@ -251,3 +251,15 @@ def nprint_law(x, k):
 
 def ceil_law(x, k):
     return k * math.ceil(x)
+
+
+def nplog10_law(x, k):
+    return k * np.log10(x)
+
+
+def logbase_law(x, k):
+    return k * math.log(x, 10)
+
+
+def remainder_law(x, y, k):
+    return k * math.remainder(x, y)
